@@ -7,7 +7,8 @@ Import ListNotations.
 
 Record ventry : Type := mk_ventry { v_path : path; v_is_dir : bool; v_size : N; v_content : N }.
 
-Inductive ckmode : Type := CkNone | CkContent.       (* --mode fast = ChecksumType::None; every other mode hashes the bytes *)
+Inductive ckmode : Type := CkNone | CkContent.       (* --mode fast / the hashing modes: since `fix: --verify-only compares file contents in every
+                                                         verification mode` all of them read and compare the bytes *)
 
 Definition lookup (l : list ventry) (p : path) : option ventry := find (fun e => peqb (v_path e) p) l.
 
@@ -16,13 +17,12 @@ Definition size_filtered (mn mx : option N) (sz : N) : bool :=
 
 Inductive cmp : Type := CmpMatch | CmpMismatch | CmpError.
 
-(* compare_checksums: with ChecksumType::None both sides yield the same constant; otherwise both files are read *)
+(* a directory where the source has a file is a mismatch (`fix: --verify-only reports a file/directory type conflict`);
+   otherwise both files are read and compared, whatever the mode.  CmpError (a file that cannot be read) does not arise
+   for the trees of this model *)
 Definition compare (m : ckmode) (s d : ventry) : cmp :=
-  match m with
-  | CkNone => CmpMatch
-  | CkContent => if v_is_dir d then CmpError                 (* reading a directory fails *)
-                 else if N.eqb (v_content s) (v_content d) && N.eqb (v_size s) (v_size d) then CmpMatch else CmpMismatch
-  end.
+  if v_is_dir d then CmpMismatch
+  else if N.eqb (v_content s) (v_content d) && N.eqb (v_size s) (v_size d) then CmpMatch else CmpMismatch.
 
 Record vresult : Type := mk_vresult {
   vr_matched : nat; vr_mismatched : list path; vr_only_src : list path; vr_only_dst : list path; vr_errors : list path
@@ -38,7 +38,7 @@ Definition verify (m : ckmode) (mn mx : option N) (src dst : list ventry) : vres
     (length (filter (fun e => match cls e with Some CmpMatch => true | _ => false end) sf))
     (map v_path (filter (fun e => match cls e with Some CmpMismatch => true | _ => false end) sf))
     (map v_path (filter (fun e => match cls e with None => true | _ => false end) sf))
-    (map v_path (filter (fun d => negb (v_is_dir d) && negb (existsb (fun e => peqb (v_path e) (v_path d)) src)) dst))
+    (map v_path (filter (fun d => negb (v_is_dir d) && negb (existsb (fun e => peqb (v_path e) (v_path d) && negb (v_is_dir e)) src)) dst))   (* a source DIRECTORY of that name is no counterpart *)
     (map v_path (filter (fun e => match cls e with Some CmpError => true | _ => false end) sf)).
 
 Definition verify_exit (r : vresult) : Z :=
